@@ -40,6 +40,7 @@
 #include <xercesc/framework/XMLEntityHandler.hpp>
 #include <xercesc/internal/EndOfEntityException.hpp>
 #include <xercesc/internal/ReaderMgr.hpp>
+#include <xercesc/util/XercesVerifHooks.hpp>
 #include <xercesc/util/OutOfMemoryException.hpp>
 #include <xercesc/util/XMLResourceIdentifier.hpp>
 
@@ -992,6 +993,7 @@ bool ReaderMgr::pushReaderAdoptEntity(     XMLReader* const        reader
     //
     fCurReaderData = new (fMemoryManager) ReaderData(reader, entity, adoptEntity);
     fCurReader = reader;
+    XERCES_VERIF_POINT(EntityPush, this, (entity ? 1 : 0), fReaderStack->size());
 
     return true;
 }
